@@ -87,10 +87,10 @@ Definition oeq {T} (eqb : T -> T -> bool) (a b : option T) : bool :=
 Definition agree_exact (c : lg_case) : bool :=
   match c with
   | (g, a, xs, tbl, performs, out) =>
-      oeq entries_eqb (lg_call (table_oracle tbl) computeQ lg_fuel g a xs) out
+      oeq entries_eqb (lg_call (table_oracle tbl) solveZ lg_fuel g a xs) out
       && match performs with
          | None => true                      (* not observed (a perform_check raised) *)
-         | Some p => oeq lists_eqb (lg_performs (table_oracle tbl) computeQ g a xs) (Some p)
+         | Some p => oeq lists_eqb (lg_performs (table_oracle tbl) solveZ g a xs) (Some p)
          end
   end.
 
@@ -100,7 +100,7 @@ Definition eps_total : Q := 1 # 1000000000.
 Definition agree_total (c : lg_case) : bool :=
   match c with
   | (g, a, xs, tbl, _, out) =>
-      match lg_call (table_oracle tbl) computeQ lg_fuel g a xs, out with
+      match lg_call (table_oracle tbl) solveZ lg_fuel g a xs, out with
       | None, None => true
       | Some es, Some es' =>
           Nat.eqb (length es) (length es')
